@@ -45,6 +45,10 @@ class MultiTag(BaseTag):
     def positions(self, da):
         if da is None:
             raise TypeError("MultiTag.positions cannot be None.")
+        if not isinstance(da, DataArray):
+            raise TypeError("MultiTag.positions must be a DataArray.")
+        if da not in self._parent.data_arrays:
+            raise RuntimeError("MultiTag.positions: DataArray not found in Block!")
         if "positions" in self._h5group:
             del self._h5group["positions"]
         self._h5group.create_link(da, "positions")
@@ -67,8 +71,13 @@ class MultiTag(BaseTag):
     @extents.setter
     def extents(self, da):
         if da is None:
-            del self._h5group["extents"]
+            if "extents" in self._h5group:
+                del self._h5group["extents"]
         else:
+            if not isinstance(da, DataArray):
+                raise TypeError("MultiTag.extents must be a DataArray.")
+            if da not in self._parent.data_arrays:
+                raise RuntimeError("MultiTag.extents: DataArray not found in Block!")
             self._h5group.create_link(da, "extents")
         if self.file.auto_update_timestamps:
             self.force_updated_at()
